@@ -33,6 +33,7 @@ RULE = (
     'this file; a fresh configuration with the same final arguments is == and builds the same. '
     'Non-trivial: history contains an *args shift and an edit made while suspended.'
 )
+RULE += (' ' + 'Round 7: construction with TaggedValues for parameters that are also tagged through an Annotated annotation (last tag entry = current tag set).')
 RULE += (' ' + 'Rounds 3-5: the configuration a copy_with was taken from stays unchanged; tag operations by index; rejected operations (update_callable to an incompatible callable) change nothing; threaded ops also while the main thread is suspended; edits inside a recursive @suspend_tracking() function; tracking flag checked after every operation.')
 ASSUMPTIONS = [
     'the argument state after each edit is judged by C03; C16 compares the log with the actual stored state',
@@ -49,6 +50,16 @@ _THIS_FILE = __file__
 
 @st.composite
 def strategy_(draw, tier):
+  if draw(st.sampled_from(range(20))) == 0:
+    # construction: parameters tagged through an Annotated annotation that also receive a
+    # TaggedValue (other tags) in the constructor call; then a few tag edits
+    return {'annotated_ctor': True, 'bt': draw(st.sampled_from(['Config', 'Partial'])),
+            'tv': draw(st.lists(st.tuples(st.sampled_from(['p0_pos', 'a_pos', 'a_kw', 'k_kw', 'z0_kw']),
+                                          st.lists(st.sampled_from(['TagA', 'TagB', 'TagX', 'TagC']), min_size=1, max_size=2, unique=True)),
+                                min_size=1, max_size=3, unique_by=lambda t: t[0][0])),
+            'edits': draw(st.lists(st.tuples(st.sampled_from(['add_tag', 'remove_tag', 'tagged_value']),
+                                             st.sampled_from(['a', 'k', 'z0']),
+                                             st.sampled_from(['TagA', 'TagB', 'TagX', 'TagC'])), max_size=3))}
   specs, models, names = [], [], []
   counter = [0]
 
@@ -224,8 +235,66 @@ def _state(cfg):
           {k: list(v) for k, v in cfg.__argument_history__.items()})
 
 
+def check_annotated_ctor(case, out):
+  from harness.vuni import things
+  out.cls('annotated_ctor', 'tag_edit')
+  out.nontrivial = True
+  pos, kw = [], {}
+  where = dict(case['tv'])
+  mk = lambda names, v: fdl.TaggedValue([vtags.ALL[n] for n in names], v)
+  if 'p0_pos' in where or 'a_pos' in where:
+    pos.append(mk(where['p0_pos'], 'v-p0') if 'p0_pos' in where else 'plain-p0')
+  if 'a_pos' in where:
+    pos.append(mk(where['a_pos'], 'v-a'))
+  elif 'a_kw' in where:
+    kw['a'] = mk(where['a_kw'], 'v-a')
+  if 'k_kw' in where:
+    kw['k'] = mk(where['k_kw'], 'v-k')
+  if 'z0_kw' in where:
+    kw['z0'] = mk(where['z0_kw'], 'v-z0')
+  cfg = getattr(fdl, case['bt'])(things.annotated_po, *pos, **kw)
+
+  def invariant(step):
+    for key, lst in cfg.__argument_history__.items():
+      if key == '__fn_or_cls__':
+        continue
+      uts = [e for e in lst if e.kind == H.ChangeKind.UPDATE_TAGS]
+      cur = frozenset(cfg.__argument_tags__.get(key, ()))
+      if uts and uts[-1].new_value != cur:
+        out.add('last-tag-entry-is-not-current-tags', 'mismatch', '', 'annotated-constructor',
+                f'{step}: key {key!r} logged {sorted(t.name for t in uts[-1].new_value)} current {sorted(t.name for t in cur)}')
+        return False
+      if cur and not uts:
+        out.add('tag-change-not-logged', 'mismatch', '', 'annotated-constructor', f'{step}: key {key!r}')
+        return False
+    for key, ts in cfg.__argument_tags__.items():
+      if ts and not any(e.kind == H.ChangeKind.UPDATE_TAGS for e in cfg.__argument_history__.get(key, [])):
+        out.add('tag-change-not-logged', 'mismatch', '', 'annotated-constructor', f'{step}: key {key!r}')
+        return False
+    return True
+
+  if not invariant('after construction'):
+    return out
+  for i, (kind, name, tag) in enumerate(case['edits']):
+    t = vtags.ALL[tag]
+    try:
+      if kind == 'add_tag':
+        fdl.add_tag(cfg, name, t)
+      elif kind == 'remove_tag':
+        fdl.remove_tag(cfg, name, t)
+      else:
+        setattr(cfg, name, fdl.TaggedValue([t], f'e{i}'))
+    except ValueError:
+      pass  # removing a tag that is not there
+    if not invariant(f'edit {i} {kind} {name} {tag}'):
+      return out
+  return out
+
+
 def check(case):
   out = Outcome()
+  if case.get('annotated_ctor'):
+    return check_annotated_ctor(case, out)
   stack = []
   try:
     return _check(case, out, stack)
